@@ -1,6 +1,7 @@
 //! Shared verification infrastructure (see /verif/DESIGN.md §2).
 pub mod corpus;
 pub mod explore;
+pub mod history;
 pub mod peer;
 pub mod report;
 pub mod runner;
